@@ -79,6 +79,9 @@ func (e *Engine) resolveType(te *STypeExpr, pkgPath string) types.Type {
 		return types.NewMap(k, v)
 	}
 	if te.Pkg == "" {
+		if te.Name == "interface" {
+			return types.NewInterfaceType(nil, nil)
+		}
 		if obj := types.Universe.Lookup(te.Name); obj != nil {
 			if tn, ok := obj.(*types.TypeName); ok {
 				return tn.Type()
